@@ -15,6 +15,8 @@ type BuilderView struct {
 	Object  string
 	Options []OptionView
 	Fields  []string // field names of the built struct (for paths)
+	// RefFields: field name -> name of the object of the same package it refers to
+	RefFields map[string]string
 }
 
 type OptionView struct {
@@ -28,11 +30,14 @@ type OptionView struct {
 func BuildersViewOf(schemas ast.Schemas, builders ast.Builders) []BuilderView {
 	var out []BuilderView
 	for _, b := range builders {
-		bv := BuilderView{Pkg: b.Package, Name: b.Name, Object: b.For.Name}
+		bv := BuilderView{Pkg: b.Package, Name: b.Name, Object: b.For.Name, RefFields: map[string]string{}}
 		t := schemas.ResolveToType(b.For.Type)
 		if t.Kind == ast.KindStruct && t.Struct != nil {
 			for _, f := range t.Struct.Fields {
 				bv.Fields = append(bv.Fields, f.Name)
+				if f.Type.Kind == ast.KindRef && f.Type.Ref != nil && f.Type.Ref.ReferredPkg == b.Package {
+					bv.RefFields[f.Name] = f.Type.Ref.ReferredType
+				}
 			}
 		}
 		for _, o := range b.Options {
@@ -75,6 +80,9 @@ type RuleSpec struct {
 	Flag      bool        `json:"flag,omitempty"`
 	Method    string      `json:"method,omitempty"`
 	FieldName string      `json:"field_name,omitempty"`
+	// Misconfigured: the generator knows the parameters do not fit together
+	// (merge_into whose source is not the type found under the path)
+	Misconfigured bool `json:"misconfigured,omitempty"`
 }
 
 var builderRuleKinds = []string{"omit", "rename", "merge_into", "compose", "properties", "duplicate", "initialize", "promote_options_to_constructor", "add_option", "add_factory"}
@@ -149,6 +157,27 @@ func GenRuleSpec(r *Rand, bvs []BuilderView, pkg string, scope string, kind stri
 			rs.Path = "nothing"
 			if len(b.Fields) > 0 {
 				rs.Path = Pick(r, b.Fields)
+			}
+			rs.Misconfigured = true
+			// a consistent configuration: the source builds the object found under the path
+			if len(b.RefFields) > 0 && r.Chance(2, 3) {
+				f := Pick(r, SortedKeys(b.RefFields))
+				for i := range bvs {
+					if bvs[i].Pkg == pkg && bvs[i].Object == b.RefFields[f] {
+						rs.SelA, rs.Source, rs.Path, rs.Misconfigured = b.Name, bvs[i].Name, f, false
+					}
+				}
+			}
+			// a destination name that matches several builders case-insensitively
+			// cannot be consistent for all of them
+			nDest := 0
+			for i := range bvs {
+				if strings.EqualFold(bvs[i].Pkg, pkg) && strings.EqualFold(bvs[i].Name, rs.SelA) {
+					nDest++
+				}
+			}
+			if nDest > 1 {
+				rs.Misconfigured = true
 			}
 			if r.Chance(1, 3) {
 				rs.Names = []string{pickOpt(nil).Name}
